@@ -24,6 +24,9 @@ pub struct Msgs {
     pub starts: Vec<usize>,
     pub largest: usize,
     pub has_padding: bool,
+    /// upper bound of the bytes the sender puts on the wire: a message that is shrunk through the send guard
+    /// keeps the slots of its sealed FlexVec items, so it can be as long as the value that was emplaced
+    pub upper_total: usize,
 }
 
 /// Containers of a value (path, kind, length), in pre-order.
@@ -144,6 +147,7 @@ pub fn gen_msgs_ext(ty: &Ty, t: &mut Tape, max: usize, limit: usize, shrink: boo
     let mut starts = vec![0];
     let mut largest = model::min_size(ty);
     let mut has_padding = false;
+    let mut upper_total = 0usize;
     for _ in 0..n {
         let mut fuel = Fuel { elems: 40, max_len: 10, overlong: false };
         if shrink && t.chance(1, 10) {
@@ -176,6 +180,7 @@ pub fn gen_msgs_ext(ty: &Ty, t: &mut Tape, max: usize, limit: usize, shrink: boo
                                 has_padding = true;
                             }
                             largest = largest.max(n);
+                            upper_total += n;
                             starts.push(starts.last().unwrap() + wire);
                             initial.push(v.clone());
                             post_ops.push(vec![]);
@@ -202,6 +207,7 @@ pub fn gen_msgs_ext(ty: &Ty, t: &mut Tape, max: usize, limit: usize, shrink: boo
             has_padding = true;
         }
         largest = largest.max(size);
+        upper_total += size.max(fsize);
         starts.push(starts.last().unwrap() + fsize);
         initial.push(v);
         post_ops.push(ops);
@@ -220,6 +226,7 @@ pub fn gen_msgs_ext(ty: &Ty, t: &mut Tape, max: usize, limit: usize, shrink: boo
         starts,
         largest,
         has_padding,
+        upper_total,
     }
 }
 
